@@ -469,7 +469,7 @@ class World:
                     f"registry returns {desc} under id {k} although it is detached / unreferenced / not a user node, after {kind}",
                     op=kind,
                 )
-        if outcome.startswith("raised") and kind == "replace":
+        if outcome.startswith("raised") and kind == "replace" and exact:
             now = {k: id(v) for k, v in list(NODE_REGISTRY.items())}
             if now != self.reg_before:
                 raise self.viol(
@@ -602,7 +602,7 @@ class World:
     def check_id_determinism(self, o: Any, pre: dict[str, int], siblings: dict[str, int]) -> None:
         """C03: a node created while no registered node has the same class, origin, comparable content and
         direct children gets the same id every time (digest >= 8: no accidental digest collisions)."""
-        if self.cfg["digest"] < 8:
+        if self.cfg["digest"] < 8 or self.cfg["gc"] != "exact":
             return
         k = self.idkey(o)
         if pre.get(k, 0) or siblings.get(k, 0) > 1:
@@ -1485,12 +1485,17 @@ def make_config(rseed: int, prop: str, tier: str, faults: bool) -> dict[str, Any
             weights[k] *= 3
     if not any(weights.get(k, 0) > 0 for k in ("drop", "detach_self", "detach", "replace")):
         weights["drop"] = 2
+    gcmode = "defer" if (prop == "C03" and r.random() < 0.15) else "exact"
+    if gcmode == "defer":
+        weights["gc"] = 3.0
     return {
         "machine": NAME,
         "prop": prop,
         "digest": digest,
         "rtc": rtc,
-        "gc": "exact",
+        # deferred collector (C03 only, narrowly relaxed oracle): garbage held by exception tracebacks stays
+        # registered until the scheduler's next explicit gc op
+        "gc": gcmode,
         "faults": faults,
         "actors": [f"a{i}" for i in range(r.choice([1, 2, 2, 3, 4]))],
         "steps": r.choice([12, 25, 40, 60]) if tier == "thorough" else r.choice([12, 25, 40]),
